@@ -13,6 +13,7 @@
 #include <osmium/io/detail/string_util.hpp>
 #include <osmium/osm/timestamp.hpp>
 #include <cstdio>
+#include <iterator>
 #include <cstdint>
 #include <fstream>
 #include <string>
@@ -71,6 +72,52 @@ static void cursor_tests(const char* path) {
             } catch (const std::runtime_error&) {
                 std::printf("%s %s std::runtime_error %ld\n", kind.c_str(), hex.c_str(), static_cast<long>(p - s.c_str()));
             }
+        }
+        // ---- phase 4: functions that build a string (the output string starts as "R"; printed as hex after the call)
+        if (kind == "oplescaped" || kind == "oplstring") {
+            std::string result{"R"};
+            auto hexs = [](const std::string& r) {
+                static const char* d = "0123456789abcdef";
+                std::string o;
+                for (unsigned char ch : r) { o += d[ch >> 4]; o += d[ch & 15]; }
+                return o.empty() ? std::string{"-"} : o;
+            };
+            try {
+                if (kind == "oplescaped") osmium::io::detail::opl_parse_escaped(&p, result);
+                else osmium::io::detail::opl_parse_string(&p, result);
+                std::printf("%s %s ok %s %ld\n", kind.c_str(), hex.c_str(), hexs(result).c_str(), static_cast<long>(p - s.c_str()));
+            } catch (const osmium::opl_error&) {
+                std::printf("%s %s osmium::opl_error %s %ld\n", kind.c_str(), hex.c_str(), hexs(result).c_str(), static_cast<long>(p - s.c_str()));
+            }
+        }
+        if (kind == "oplchar" && !s.empty()) {       // first byte = the expected character, the rest = the buffer
+            const char c = s[0];
+            p = s.c_str() + 1;
+            try {
+                osmium::io::detail::opl_parse_char(&p, c);
+                std::printf("%s %s ok 0 %ld\n", kind.c_str(), hex.c_str(), static_cast<long>(p - s.c_str() - 1));
+            } catch (const osmium::opl_error&) {
+                std::printf("%s %s osmium::opl_error %ld\n", kind.c_str(), hex.c_str(), static_cast<long>(p - s.c_str() - 1));
+            }
+        }
+        if ((kind == "hex2" || kind == "hexmin4") && s.size() == 4) {   // a big-endian uint32_t; the table is the buffer of the Lean side
+            const uint32_t v = (uint32_t(uint8_t(s[0])) << 24) | (uint32_t(uint8_t(s[1])) << 16) | (uint32_t(uint8_t(s[2])) << 8) | uint32_t(uint8_t(s[3]));
+            std::string result{"R"};
+            if (kind == "hex2") osmium::io::detail::append_2_hex_digits(result, v, "0123456789abcdef");
+            else osmium::io::detail::append_min_4_hex_digits(result, v, "0123456789abcdef");
+            std::string o;
+            static const char* d = "0123456789abcdef";
+            for (unsigned char ch : result) { o += d[ch >> 4]; o += d[ch & 15]; }
+            std::printf("%s %s ok %s 0\n", kind.c_str(), hex.c_str(), o.c_str());
+        }
+        if (kind == "cpenc") {                       // the four bytes are a big-endian uint32_t code point
+            const uint32_t cp = (uint32_t(uint8_t(s[0])) << 24) | (uint32_t(uint8_t(s[1])) << 16) | (uint32_t(uint8_t(s[2])) << 8) | uint32_t(uint8_t(s[3]));
+            std::string result{"R"};
+            osmium::io::detail::append_codepoint_as_utf8(cp, std::back_inserter(result));
+            std::string o;
+            static const char* d = "0123456789abcdef";
+            for (unsigned char ch : result) { o += d[ch >> 4]; o += d[ch & 15]; }
+            std::printf("cpenc %s ok %s 0\n", hex.c_str(), o.c_str());
         }
         if (kind == "coord") {
             try {
